@@ -54,18 +54,26 @@ TEXT = {
             "Anchor coordinates, the rest of propagation, mark groups, lookups and GDEF are not covered.",
             "Trusted: Kani/CBMC; std str::parse/strip_prefix/rsplit_once and SmolStr are executed, not modelled."),
     "C13": ("Token-stream level, bounded: CBMC proves for every window of N ASCII bytes (N = 3, 4; 5 thorough), and for a 2-byte char between ASCII bytes, from every lexer state, that every token consumes input, "
-            "token lengths sum to the window, Eof is produced only at the end, token boundaries are char boundaries, and the loop terminates within N+1 tokens without panic. The parser, the tree sink, include "
-            "resolution, diagnostics and validation are not covered.",
-            "Trusted: Kani/CBMC. Windows start in an arbitrary lexer state, so the bound is on the window, not the file; multi-byte chars beyond one 2-byte char are outside."),
-    "C16": ("Bounded: CBMC proves the box step of the overlay (NBox::overlay_onto) for all 1-axis shapes (2-axis shapes thorough) on the k/4 grid with k/8 probes: nothing of the other box is lost, the intersection is exact, "
-            "a cut remainder does not overlap the intersection; that the rank sort key is strictly monotone in the number of contributing rules for ranks of 0-3 words; that rank arithmetic (|, |=, >>1, ==, new) "
-            "agrees with plain integers for operands of different word counts. Thorough adds the whole overlay_feature_variations on the 2-rule/1-axis instance against the behavioural oracle. "
-            "The composition into the overlay loop beyond that instance is argued, not solved.",
-            "Trusted: Kani/CBMC, verif_shim BTreeMap/HashSet/IndexMap. More than 2 axes and more than one box per region are outside."),
-    "C17": ("hmtx/hhea kernel, bounded: CBMC proves for 1 and 3 glyphs (4 thorough) with every input symbolic that MetricsBuilder's long metrics + side-bearing run reconstruct the inputs exactly with a minimal "
-            "number of long metrics, and that advance max, min lsb, min rsb and max extent equal a first-principles fold over non-empty glyphs (with the documented i16 clamping). maxp, bounding boxes, loca, "
-            "OS/2 summaries are assembled in job bodies and are not covered.",
-            "Trusted: Kani/CBMC."),
+            "token lengths sum to the window, Eof is produced only at the end, token boundaries are char boundaries, and the loop terminates within N+1 tokens without panic; and, for the parser's error-recovery sets, "
+            "that every lexer Kind fits the 128-bit TokenSet mask (no shift overflow: a dev panic / release aliasing) and that TokenSet membership (new, add, union, contains, the composed recovery sets) is exact for "
+            "every Kind. The parser proper, the tree sink, include resolution, diagnostic ranges and validation are not covered.",
+            "Trusted: Kani/CBMC. Windows start in an arbitrary lexer state, so the bound is on the window, not the file; multi-byte chars beyond one 2-byte char are outside. SourceMap::resolve_range and the line "
+            "table were harnessed and did not fit (16 GB)."),
+    "C16": ("Bounded, solver-decided. (1) BV: for every enumerated rule layout (catalog incl. 65/66/130 rules, two-box regions, same-region and same-substitution rules; exhaustive grids: 1 axis k/2 with 1-3 rules, "
+            "2 axes k/2 with 2 rules, 2 axes {-1,0,1} with 3 rules; more in thorough) the real overlay_feature_variations runs natively and z3 and cvc5 both prove that at EVERY designspace point (all reals in [-1,1]^n "
+            "off the rule-box bounds) the first output box containing the point applies, per glyph, exactly the substitution of the first source rule in order that contains the point. "
+            "(2) CBMC proves the box step (NBox::overlay_onto) for all 1-axis shapes (2-axis shapes thorough) on the k/4 grid with k/8 probes, that the rank sort key is strictly monotone in the number of contributing "
+            "rules for ranks of 0-3 words, and that rank arithmetic agrees with plain integers for operands of different word counts. One genuine deviation from rule order is carried as a known finding "
+            "(same-region rules are merged at the position of the later one, as in fontTools). Design-space normalisation of conditions in fontbe, record sorting in fea-rs and lookup construction are not covered.",
+            "Trusted: Kani/CBMC, verif_shim BTreeMap/HashSet/IndexMap; for BV z3+cvc5 agreement and the 60-line encoding of 'first matching box' / 'first rule in order' in kit/boxval. "
+            "Rule layouts are enumerated, not solved; points on a bound of a rule box (measure zero) are outside."),
+    "C17": ("hmtx/hhea, OS/2 bit-field and maxp/max-context kernels, bounded: CBMC proves for 1 and 3 glyphs (4 thorough) with every input symbolic that MetricsBuilder's long metrics + side-bearing run reconstruct the "
+            "inputs exactly with a minimal number of long metrics, and that advance max, min lsb, min rsb and max extent equal a first-principles fold over non-empty glyphs (with the documented i16 clamping); "
+            "for EVERY codepoint <= 0x10FFFF that add_unicode_range_bits sets exactly the bit of the table row containing it plus bit 57 iff beyond the BMP (table proved sorted and disjoint), that "
+            "ulUnicodeRange1-4 / ulCodePageRange1-2 are the exact packing of two symbolic assigned bits, that usFirst/LastCharIndex are min/max of three symbolic codepoints capped at "
+            "0xFFFF; that maxp composite maxima are accumulated field-wise and that the per-rule max-context length is input / input+lookahead / 1+lookahead. "
+            "Composite bounding boxes, the composite-limit iteration, head bbox, loca, average char width are assembled in job bodies and are not covered.",
+            "Trusted: Kani/CBMC; verif_shim HashSet for the OS/2 kernels (T1 on fontbe/src/os2.rs, T1f on the two MiscMetadata fields). codepage_range_bits (the character rules) did not fit CBMC and is not covered."),
     "C19": ("Harnessed narrowing sites only, bounded by value range (full f64 / full integer ranges), overflow and panic checks ON: component offsets are rejected or exact; component scales in [-2,2] are within half a 2.14 step; "
             "fontir's overflow guard requests decomposition exactly for 2x2 coefficients outside [-2,2]; user coordinates are stored to the nearest 16.16 step; "
             "composite deltas and use-my-metrics comparisons are exact inside the 16-bit range; MetricsBuilder::update cannot overflow; every OS/2 metric field is the half-up rounding of its own metric; "
@@ -75,6 +83,7 @@ TEXT = {
 }
 TECH = "bounded model checking (Kani 0.68 / CBMC 6.11 / CaDiCaL) of the real functions in an overlay of /repo's working tree"
 TECH_SV = TECH + " + SMT (z3, cvc5) over terms recorded from the real generic code"
+TECH_BV = TECH + " + SMT (z3, cvc5) validation, for all designspace points, of the output of the real overlay_feature_variations run natively on each enumerated rule layout"
 
 
 def main():
@@ -95,6 +104,8 @@ def main():
              "kind_free_text": "Kani 0.68 -> CBMC 6.11 -> CaDiCaL bounded model checking of the real kernel functions in an overlay of /repo's working tree; symbolic inputs via kani::any, unwinding assertions on, reachability covers against vacuity, counterexamples replayed natively (dev + release) before they are reported"},
             {"name": "symval-smt", "path": "kit/symval kit/svcheck.py", "serves_properties": sorted(config.SV_PROPERTIES),
              "kind_free_text": "the real generic VariationModel::deltas_with_rounding<P,V>/interpolate_from_deltas<V> run on an expression-recording value type; z3 and cvc5 decide the round trip for all master values per enumerated layout; sat models are replayed on f64"},
+            {"name": "boxval-smt", "path": "kit/boxval kit/bvcheck.py", "serves_properties": sorted(config.BV_PROPERTIES),
+             "kind_free_text": "the real overlay_feature_variations (unmodified /repo/fontir, public API) runs natively on each enumerated rule layout; z3 and cvc5 decide, for all real designspace points at once, that the first matching output box applies what the source rules say; sat models are replayed natively on a dyadic witness point"},
         ],
         "checks": [],
         "notes": "Solver-based checking of the real code: see DESIGN.md. Exit 2 from a check means inconclusive (encoding failed, solver budget, vacuous harness, non-reproducing counterexample) and is never a verdict. Fix commits in /repo and findings carried are listed in known_findings.json.",
@@ -110,10 +121,10 @@ def main():
                 "thorough_cmd": f"bin/vk check {pid} --tier thorough",
                 "evidence_file": f"evidence/{pid}.json",
                 "replay_cmd_template": "bin/vk replay {path}",
-                "engine": "kani-overlay + symval-smt" if pid in config.SV_PROPERTIES else "kani-overlay",
+                "engine": "kani-overlay + symval-smt" if pid in config.SV_PROPERTIES else ("kani-overlay + boxval-smt" if pid in config.BV_PROPERTIES else "kani-overlay"),
                 "level_claimed": {"category": "model_checking", "text": text, "design_ref": f"DESIGN.md §5 {pid}"},
                 "level_note": note,
-                "technique": TECH_SV if pid in config.SV_PROPERTIES else TECH,
+                "technique": TECH_SV if pid in config.SV_PROPERTIES else (TECH_BV if pid in config.BV_PROPERTIES else TECH),
             })
         else:
             m["not_applicable"].append({"property_id": pid, "reason": NA[pid]})
